@@ -9,15 +9,19 @@ from ..refs import units_ref as R
 from ..refs import unit_gens as G
 
 ID = "C04"
-RULE = ("A case draws a dimension class of the linear table units, three unit expressions u,v,w of that dimension "
-        "(prefixed atoms, constants, base-unit expansions with random prefixes, atom*X/Y ratios) and a magnitude x "
-        "(0, +-, exponents to 1e+-250, scalars and arrays). Oracle: x*F(u)/F(v) with F from the independent table "
-        "reference; value(v), to(v), to(v).to(u)==x, to(w).to(v)==direct. Reciprocal-dimension pairs expect "
-        "1/(x F(u))/F(v); the target also given as the Quantity k*v (result/k); bare numbers to rad/mrad (a NAMED "
-        "dimensionless unit such as % is not a bare number and must be refused); pairs of differing non-reciprocal dimension must raise and leave "
-        "value/units untouched. Non-trivial: u!=v textually with F(u)!=F(v) and x!=0, or a rejection pair, or a "
-        "Round 4: degR inside compound expressions, as reciprocal, and refused against other powers (strategy rankine). "
-        "reciprocal pair. Distinct = distinct case JSON.")
+RULE = (
+    'A case draws a dimension class of the linear table units, three unit expressions u,v,w of that dimension '
+    '(prefixed atoms, constants, base-unit expansions with random prefixes, atom*X/Y ratios) and a magnitude x '
+    '(0, +-, exponents to 1e+-250, scalars and arrays). Oracle: x*F(u)/F(v) with F from the independent table '
+    'reference; value(v), to(v), to(v).to(u)==x, to(w).to(v)==direct. Reciprocal-dimension pairs expect 1/(x '
+    'F(u))/F(v); the target also given as the Quantity k*v (result/k); bare numbers to rad/mrad (a NAMED '
+    'dimensionless unit such as % is not a bare number and must be refused); pairs of differing non-reciprocal '
+    'dimension must raise and leave value/units untouched. Non-trivial: u!=v textually with F(u)!=F(v) and x!=0, '
+    'or a rejection pair, or a reciprocal pair. Round 4: degR inside compound expressions, as reciprocal, and '
+    'refused against other powers (strategy rankine). Later rounds: float32 / float16 / integer-array / Decimal '
+    'magnitudes (typed_input), to(None), reciprocal conversions of quantities that carry a relative error, Unit() '
+    'attributes read, converted in place and read again (unit_object). Distinct = distinct case JSON.'
+)
 ASSUMPTIONS = [
     "temperature (Cel, degF) and logarithmic units are excluded here (C05)",
     "cases where x*F(u) leaves [1e-300,1e300] are discarded: the library multiplies before dividing, an intermediate "
